@@ -1444,6 +1444,11 @@ fire("c10-lagged-short-sequence-starts-one-step-early", "C10", SUMPROD,
 silent("c10-s-lagged-short-sequence-decrement-first-adjusted", "C10", SUMPROD,
        "            result = trans(**{time: remaining_duration - 1})\n            remaining_duration -= 1\n", "            remaining_duration -= 1\n            result = trans(**{time: remaining_duration})\n")
 
+fire("c10-markov-absent-time-add-raised-to-power", "C10", SUMPROD, "        result = trans * time.size\n", "        result = trans**time.size\n", "R10.5", "eager_markov_product")
+fire("c10-markov-plain-product-uses-sum-op", "C10", SUMPROD, "        result = trans.reduce(prod_op, time.name)\n", "        result = trans.reduce(sum_op, time.name)\n", "R10.5", "eager_markov_product")
+fire("c10-markov-scan-ops-swapped", "C10", SUMPROD,
+     "        result = sequential_sum_product(sum_op, prod_op, trans, time, dict(step))\n", "        result = sequential_sum_product(prod_op, sum_op, trans, time, dict(step))\n", "R10.5", "eager_markov_product")
+
 # ===== derived variants: must stay at the END of this file (they enumerate every rename() variant above) =====
 # `if c: A else: B` -> `if not c: B else: A` in the anchor functions (behaviour-preserving)
 def invert(prop, file, qual):
